@@ -23,7 +23,7 @@ func init() {
 	fw.Register(&fw.Property{
 		ID:    "C01",
 		Level: "exploration",
-		Rule: "case = one history: 1-3 derived root frames, then 40 (quick) / 80 (thorough) steps; each step applies a random operation (Filter with any clause, Sort, Slice, Select, Drop, Copy, Apply/FilteredApply programs incl. built-in ToUpper, Eval, WithRowNums, Distinct, GroupBy->Aggregate with input-scribbling user functions, GroupBy->QFrames, typed views whose Slice() is scribbled over, ToCSV plain, without header and with an explicit permuted csv.Columns order / ToJSON / ToSQL / String/Equals/ByteSize/ColumnTypeMap/ColumnNames) " +
+		Rule: "case = one history: 1-3 derived root frames, then 40 (quick) / 80 (thorough) steps; each step applies a random operation (Filter with any clause, Sort, Slice, Select, Drop, Copy, Apply/FilteredApply programs incl. built-in ToUpper, Eval, WithRowNums, Distinct, GroupBy->Aggregate with input-scribbling user functions, GroupBy->QFrames, typed views whose Slice() is scribbled over, operations that fail (invalid Eval/Apply/Filter/Sort/Select/Copy/Slice/Distinct/Aggregate/FilteredApply requests, whose result must carry Err and leave everything else untouched), ToCSV plain, without header and with an explicit permuted csv.Columns order / ToJSON / ToSQL / String/Equals/ByteSize/ColumnTypeMap/ColumnNames) " +
 			"to a random member of the growing family (frames, groupers, views, strings obtained through ItemAt); after EVERY step every member is re-observed and compared with the snapshot taken when it was created (Err, Len, names, order, types, every cell; alias canaries for strings returned by views); structural invariants are checked through the hook; " +
 			"evaluation = one re-inspection of one member after one step; non-trivial history = a step produced a result sharing the index array with an older member and a later step operated on one of the two; distinct by history (seeded case number + operation log)",
 		Assumptions: []string{
@@ -240,7 +240,74 @@ func runC01(c *fw.Case) {
 		var results []qframe.QFrame
 		newMembers := []*c01Member{}
 		pv, stack := fw.Guard(func() {
-			switch rng.Intn(20) {
+			switch rng.Intn(22) {
+			case 20, 21:
+				// operations that fail: the receiver (and everything else) stays as it was, the result carries Err
+				pick := func(k model.Kind) string {
+					for _, col := range sh.Cols {
+						if col.Kind == k && col.Name != model.IDCol {
+							return col.Name
+						}
+					}
+					return ""
+				}
+				iC, fC := pick(model.KInt), pick(model.KFloat)
+				any1 := names[rng.Intn(len(names))]
+				type inv struct {
+					name string
+					f    func() qframe.QFrame
+				}
+				invs := []inv{
+					{"Eval(col + unknown column)", func() qframe.QFrame {
+						return qf.Eval("ev", qframe.Expr("+", types.ColumnName(any1), types.ColumnName("no-such-col")), eval.EvalContext(ctx))
+					}},
+					{"Eval(unknown column + col)", func() qframe.QFrame {
+						return qf.Eval(any1, qframe.Expr("+", types.ColumnName("no-such-col"), types.ColumnName(any1)), eval.EvalContext(ctx))
+					}},
+					{"Eval(unknown function)", func() qframe.QFrame { return qf.Eval("ev", qframe.Expr("nosuchfn", types.ColumnName(any1)), eval.EvalContext(ctx)) }},
+					{"Eval(unknown column onto itself)", func() qframe.QFrame { return qf.Eval("no-such-col", qframe.Val(types.ColumnName("no-such-col"))) }},
+					{"Apply(unknown source)", func() qframe.QFrame {
+						return qf.Apply(qframe.Instruction{Fn: func(x int) int { return x }, DstCol: "ap", SrcCol1: "no-such-col"})
+					}},
+					{"Apply(valid, then function of the wrong type)", func() qframe.QFrame {
+						return qf.Apply(qframe.Instruction{Fn: 1, DstCol: "ap"}, qframe.Instruction{Fn: func(x complex128) int { return 1 }, DstCol: any1, SrcCol1: any1})
+					}},
+					{"Filter(unknown column)", func() qframe.QFrame { return qf.Filter(qframe.Filter{Column: "no-such-col", Comparator: "=", Arg: 1}) }},
+					{"Filter(Or(valid, unsupported comparator))", func() qframe.QFrame {
+						return qf.Filter(qframe.Or(qframe.Filter{Column: any1, Comparator: "isnotnull"}, qframe.Not(qframe.Filter{Column: any1, Comparator: "~~", Arg: 1})))
+					}},
+					{"Sort(col, unknown column)", func() qframe.QFrame { return qf.Sort(qframe.Order{Column: any1}, qframe.Order{Column: "no-such-col"}) }},
+					{"Select(col, unknown column)", func() qframe.QFrame { return qf.Select(any1, "no-such-col") }},
+					{"Copy(unknown source)", func() qframe.QFrame { return qf.Copy("cp", "no-such-col") }},
+					{"Copy(illegal destination)", func() qframe.QFrame { return qf.Copy("$x", any1) }},
+					{"Slice(out of range)", func() qframe.QFrame { return qf.Slice(0, n+1) }},
+					{"Distinct(unknown column)", func() qframe.QFrame { return qf.Distinct(groupby.Columns(any1, "no-such-col")) }},
+					{"GroupBy(col).Aggregate(unknown column)", func() qframe.QFrame {
+						return qf.GroupBy(groupby.Columns(any1)).Aggregate(qframe.Aggregation{Fn: "count", Column: "no-such-col"})
+					}},
+					{"GroupBy(unknown column).Aggregate", func() qframe.QFrame {
+						return qf.GroupBy(groupby.Columns("no-such-col")).Aggregate(qframe.Aggregation{Fn: "count", Column: any1})
+					}},
+					{"FilteredApply(invalid clause)", func() qframe.QFrame {
+						return qf.FilteredApply(qframe.Filter{Column: "no-such-col", Comparator: "=", Arg: 1}, qframe.Instruction{Fn: 1, DstCol: any1})
+					}},
+					{"WithRowNums(illegal name)", func() qframe.QFrame { return qf.WithRowNums("\"q\"") }},
+				}
+				if iC != "" && fC != "" {
+					invs = append(invs,
+						inv{"Eval(int column + float column)", func() qframe.QFrame {
+							return qf.Eval("ev", qframe.Expr("+", types.ColumnName(iC), types.ColumnName(fC)), eval.EvalContext(ctx))
+						}},
+						inv{"Eval(nested: (int column + float column) * 2)", func() qframe.QFrame {
+							return qf.Eval(iC, qframe.Expr("*", qframe.Expr("+", types.ColumnName(iC), types.ColumnName(fC)), 2), eval.EvalContext(ctx))
+						}},
+						inv{"Apply(two-argument function over int and float columns)", func() qframe.QFrame {
+							return qf.Apply(qframe.Instruction{Fn: func(x, y int) int { return x }, DstCol: "ap", SrcCol1: iC, SrcCol2: fC})
+						}})
+				}
+				iv := invs[rng.Intn(len(invs))]
+				op = "Failing:" + iv.name
+				results = append(results, iv.f())
 			case 0, 1:
 				cl := model.GenClause(rng, sh, 1+rng.Intn(3))
 				if cl == nil {
